@@ -5,7 +5,7 @@ event_model contract (A-EVENTMODEL):
   compose_run(uid, event_counters, metadata) -> start doc {uid, time, **metadata}; compose_descriptor / compose_stop bound to it
   compose_descriptor(name, data_keys, ...): doc {run_start = start uid, uid (given or fresh), name, data_keys, ...};
         raises if the name was composed before with other data keys; new name => event_counters[name] = 1
-  compose_event(data, timestamps, filled): seq_num = event_counters[name]; doc {uid fresh, descriptor = descriptor uid,
+  compose_event(data, timestamps, filled): seq_num = event_counters[name] (KeyError if the counter was removed); doc {uid fresh, descriptor = descriptor uid,
         seq_num, data, timestamps, filled}; raises if the key sets differ from the descriptor's (STREAM: keys aside);
         then event_counters[name] = seq_num + 1              (the dict is shared with RunBundler._sequence_counters)
   compose_stop(exit_status, reason): raises on the second call (poison pill); doc {run_start, exit_status, reason,
@@ -110,6 +110,9 @@ class Env:
                 filled = k3.get("filled") or {}
                 seq = k3.get("seq_num")
                 if seq is None:
+                    if name not in counters:
+                        # event_model: `seq_num = event_counters[name]` - a KeyError of the object language when the counter is gone
+                        raise PyRaise(I3.mkexc("KeyError", name))
                     seq = counters[name]
                 ev = {"uid": env.uid(), "time": I3.w.real("t", fresh=True), "data": data, "timestamps": ts, "seq_num": seq,
                       "filled": filled, "descriptor": doc["uid"]}
